@@ -32,7 +32,7 @@ DataInDomain(d, octets) ==
   /\ d.data # << >>
   /\ (d.length = << >> \/ d.length[1] = Len(octets))
   /\ (d.offset = << >> \/ d.offset[1] <= Len(d.data) - 1)
-  /\ Len(octets) <= MaxMessageLength
+  \* (no size limit of its own: without a Length field a data message may exceed 65 535 octets)
 
 ExpectedAfterRoundTrip(m, octets) ==
   IF m.k = "Control" THEN [m EXCEPT !.length = Len(octets)]
@@ -66,6 +66,8 @@ VEncode(ev) ==
       ELSE IF sp.panic THEN <<"oversize-accepted">>
       ELSE T(ev.out.v # sp.buf, "octets")
            \o T(Len(ev.out.v) < Len(prefix) \/ Take(ev.out.v, Len(prefix)) # prefix, "prefix-changed")
+           \* (a prefix too large to log: the harness reports whether its octets are untouched, out.v is what follows)
+           \o T(Has(ev, "prefix_ok") /\ ~ev.prefix_ok, "prefix-changed")
            \o T(Len(ev.out.v) >= Len(prefix) /\ ~EmittedLengthsOk(ev.kind, ev.v, Drop(ev.out.v, Len(prefix))), "length-field")
            \o T(ev.kind = "avp" /\ Has(ev, "glen") /\ 6 + ev.glen # Len(ev.out.v) - Len(prefix), "get-length"))
      \o T(ev.kind = "avp" /\ Has(ev, "glen") /\ ev.glen # ValueLength(ev.v), "get-length-spec")
